@@ -119,14 +119,15 @@ func historyLists(mode string) map[string][][]nv {
 	case "contextual":
 		return map[string][][]nv{"all-weekday": classSets("weekday-names", nil), "all-month": classSets("month-names", nil)}
 	case "date":
-		return map[string][][]nv{"all-iso-dates": classSets("iso-dates", nil), "all-us-dates": classSets("us-dates", nil)}
+		return map[string][][]nv{"all-iso-dates": classSets("iso-dates", nil), "all-us-dates": classSets("us-dates", nil),
+			"all-ms-datetimes": classSets("iso-ms-datetimes", nil), "all-offset-datetimes": classSets("offset-datetimes", nil)}
 	}
 	panic("harness: unknown mode " + mode)
 }
 
 var historyListOrder = map[string][]string{
 	"text": {"mixed-classes"}, "numeric": {"mixed-classes"}, "value": {"mixed-classes-and-totals"},
-	"contextual": {"all-weekday", "all-month"}, "date": {"all-iso-dates", "all-us-dates"},
+	"contextual": {"all-weekday", "all-month"}, "date": {"all-iso-dates", "all-us-dates", "all-ms-datetimes", "all-offset-datetimes"},
 }
 
 // expectFresh: what a fresh instance of the spec gives for the data set.
